@@ -8,6 +8,7 @@ CONSTANTS
   DefaultCap = 100
   FinCaps = {}
   MaxOps = 0
+  WordBits = 0
   Bug = "none"
   MaxLog2 = 0
 VIEW TraceView
